@@ -330,6 +330,16 @@ def specStmt (w : World ν) (kids : Table ν) (env : Table ν) : Stmt ν → Tab
   -- a qualified pattern looks at the file's namespaces only; an expression at the environment
   | .pmatch pre ty v => (env, [resolvePat w kids pre ty v])
   | .euse pre ty v => (env, [enumExprWith w (fun y => env.get y) pre ty v])
+  -- sibling scopes: every arm / branch starts from the environment of the whole statement
+  | .marms arms => (env, specArms w kids env arms)
+  | .ifelse a b => (env, (specStmts w kids env a).2 ++ (specStmts w kids env b).2)
+
+def specArms (w : World ν) (kids : Table ν) (env : Table ν) :
+    List (Option (ν × Nat) × List (Stmt ν)) → List (Res ν)
+  | [] => []
+  | (some (x, id), body) :: rest =>
+    (specStmts w kids ((x, Decl.loc id) :: env) body).2 ++ specArms w kids env rest
+  | (none, body) :: rest => (specStmts w kids env body).2 ++ specArms w kids env rest
 
 def specStmts (w : World ν) (kids : Table ν) (env : Table ν) : List (Stmt ν) → Table ν × List (Res ν)
   | [] => (env, [])
@@ -378,11 +388,35 @@ theorem resolveStmt_refines (w : World ν) (kids : Table ν) (st : SymTab ν) (e
     exact (resolveStmts_refines w kids _ _ (fun y => by
       rw [lookup_newScope, lookup_extend, lookup_newScope, get_cons, h]) body).1
   | .pmatch pre ty v => ⟨rfl, fun y => h y⟩
+  | .marms arms => by
+    refine ⟨?_, fun y => h y⟩
+    simp only [resolveStmt, specStmt]
+    exact resolveArms_refines w kids st env h arms
+  | .ifelse a b => by
+    refine ⟨?_, fun y => h y⟩
+    simp only [resolveStmt, specStmt]
+    rw [(resolveStmts_refines w kids (newScope st) env (fun y => by rw [lookup_newScope, h]) a).1,
+        (resolveStmts_refines w kids (newScope st) env (fun y => by rw [lookup_newScope, h]) b).1]
   | .euse pre ty v => by
     refine ⟨?_, fun y => h y⟩
     simp only [resolveStmt, specStmt, resolveEnumExpr]
     have : lookup st = fun y => env.get y := funext h
     rw [this]
+
+theorem resolveArms_refines (w : World ν) (kids : Table ν) (st : SymTab ν) (env : Table ν)
+    (h : ∀ y, lookup st y = env.get y) : (arms : List (Option (ν × Nat) × List (Stmt ν))) →
+    resolveArms w true kids st arms = specArms w kids env arms
+  | [] => rfl
+  | (some (x, id), body) :: rest => by
+    simp only [resolveArms, specArms]
+    rw [(resolveStmts_refines w kids _ _ (fun y => by
+          rw [lookup_newScope, lookup_extend, lookup_newScope, get_cons, h]) body).1,
+        resolveArms_refines w kids st env h rest]
+  | (none, body) :: rest => by
+    simp only [resolveArms, specArms]
+    rw [(resolveStmts_refines w kids _ env (fun y => by
+          rw [lookup_newScope, lookup_newScope, h]) body).1,
+        resolveArms_refines w kids st env h rest]
 
 theorem resolveStmts_refines (w : World ν) (kids : Table ν) (st : SymTab ν) (env : Table ν)
     (h : ∀ y, lookup st y = env.get y) : (ss : List (Stmt ν)) →
